@@ -101,6 +101,7 @@ def shard(ctx: Ctx) -> None:
     sweep.standard_sweep(ctx, PROP)
     sweep.same_turn_pairs_sweep(ctx, PROP)
     sweep.stalled_connect_sweep(ctx, PROP)
+    sweep.abandoned_disconnect_sweep(ctx, PROP)
     sweep.connect_fault_sweep(ctx, PROP)
     sweep.duplicate_answers_sweep(ctx, PROP)
     sweep.pair_sweep(ctx, PROP, 5000 if ctx.thorough else 250)
